@@ -12,7 +12,12 @@ use std::path::{Path, PathBuf};
 use std::sync::Mutex;
 use std::time::Instant;
 
-pub const VERIF_DIR: &str = "/verif";
+/// Root of the verification tree. Always /verif for the registered commands; a scratch copy used for
+/// mutant matrices sets CV_VERIF_DIR (tools/matrix.sh).
+pub fn verif_dir() -> &'static str {
+    static D: std::sync::OnceLock<String> = std::sync::OnceLock::new();
+    D.get_or_init(|| std::env::var("CV_VERIF_DIR").unwrap_or_else(|_| "/verif".to_string()))
+}
 
 // ---------------------------------------------------------------------------------------------
 // Entropy source
@@ -327,7 +332,7 @@ impl Ctx {
         if self.failed() {
             return;
         }
-        let dir = Path::new(VERIF_DIR).join("corpus").join(&self.property);
+        let dir = Path::new(verif_dir()).join("corpus").join(&self.property);
         let mut files: Vec<PathBuf> = match std::fs::read_dir(&dir) {
             Ok(rd) => rd.filter_map(|e| e.ok()).map(|e| e.path()).filter(|p| p.extension().map(|e| e == "json").unwrap_or(false)).collect(),
             Err(_) => vec![],
@@ -385,7 +390,7 @@ impl Ctx {
         F: Fn(&str, &Value, &mut Obs) -> Result<Verdict, String>,
     {
         for k in &self.known {
-            let p = Path::new(VERIF_DIR).join("known").join(format!("{}-{}.json", k.property, k.id));
+            let p = Path::new(verif_dir()).join("known").join(format!("{}-{}.json", k.property, k.id));
             let Ok(text) = std::fs::read_to_string(&p) else {
                 self.inconclusive = Some(format!("known finding {} has no witness file {}", k.id, p.display()));
                 return;
@@ -542,7 +547,7 @@ impl Ctx {
         }
         let mut replay_path = None;
         if let Some(f) = &self.failure {
-            let dir = Path::new(VERIF_DIR).join("evidence").join("replays");
+            let dir = Path::new(verif_dir()).join("evidence").join("replays");
             let _ = std::fs::create_dir_all(&dir);
             let body = json!({"property": self.property, "sub": f.sub, "message": f.message, "case": f.case, "tape": f.tape, "seed": self.seed, "tier": self.tier.name()});
             let h = hash_of(&serde_json::to_string(&f.case).unwrap_or_default());
@@ -584,7 +589,7 @@ impl Ctx {
             "violations": if self.failure.is_some() { 1 } else { 0 },
             "violation": self.failure.as_ref().map(|f| json!({"sub": f.sub, "message": f.message, "replay": replay_path.as_ref().map(|p| p.display().to_string())})),
         });
-        let evdir = Path::new(VERIF_DIR).join("evidence");
+        let evdir = Path::new(verif_dir()).join("evidence");
         let _ = std::fs::create_dir_all(&evdir);
         let evp = evdir.join(format!("{}.json", self.property));
         if let Err(e) = std::fs::write(&evp, serde_json::to_string_pretty(&ev).unwrap()) {
@@ -738,7 +743,7 @@ pub fn fail_case<C: Serialize>(sub: &str, case: &C, message: String) -> Failure 
 /// `known: property=<ID> id=<KFn> signature=<name> :: <what fails>`
 /// `fixed: property=<ID> <commit> <what failed>`   (suppresses nothing)
 pub fn load_known(property: &str) -> Vec<Known> {
-    let p = Path::new(VERIF_DIR).join("KNOWN_FINDINGS.txt");
+    let p = Path::new(verif_dir()).join("KNOWN_FINDINGS.txt");
     let Ok(text) = std::fs::read_to_string(p) else { return vec![] };
     let mut out = vec![];
     for line in text.lines() {
@@ -872,8 +877,7 @@ pub fn minimize_vec<T: Clone, F: Fn(&[T]) -> bool>(v: &[T], fails: F) -> Vec<T> 
 // Coverage-guided tier (libFuzzer via cargo-fuzz), thorough only
 // ---------------------------------------------------------------------------------------------
 
-pub const FUZZ_DIR: &str = "/verif/fuzz";
-pub const FUZZ_TARGET_DIR: &str = "/verif/.build/fuzz";
+
 
 impl Ctx {
     /// Run a libFuzzer campaign of `runs` executions per worker on `workers` workers with the semantic
@@ -889,9 +893,9 @@ impl Ctx {
         let bin_name = format!("fz_{target}");
         // build (recompiles chiritori from /repo's working tree through the path dependency)
         let build = std::process::Command::new("cargo")
-            .args(["+nightly", "fuzz", "build", "--fuzz-dir", FUZZ_DIR, "--target-dir", FUZZ_TARGET_DIR, &bin_name])
+            .args(["+nightly", "fuzz", "build", "--fuzz-dir", &format!("{}/fuzz", verif_dir()), "--target-dir", &format!("{}/.build/fuzz", verif_dir()), &bin_name])
             .env("CARGO_NET_OFFLINE", "true")
-            .current_dir(VERIF_DIR)
+            .current_dir(verif_dir())
             .output();
         let ok = matches!(&build, Ok(o) if o.status.success());
         if !ok {
@@ -902,13 +906,13 @@ impl Ctx {
             self.inconclusive = Some(format!("cargo fuzz build failed: {}", truncate(&msg, 1500)));
             return;
         }
-        let bin = format!("{FUZZ_TARGET_DIR}/x86_64-unknown-linux-gnu/release/{bin_name}");
+        let bin = format!("{}/.build/fuzz/x86_64-unknown-linux-gnu/release/{bin_name}", verif_dir());
         if !Path::new(&bin).exists() {
             self.inconclusive = Some(format!("fuzz binary {bin} not found after build"));
             return;
         }
         let workers = (threads() / 2).clamp(1, 8);
-        let base = PathBuf::from(format!("{VERIF_DIR}/.build/fuzz-run/{}-{}-{}", self.property, target, std::process::id()));
+        let base = PathBuf::from(format!("{}/.build/fuzz-run/{}-{}-{}", verif_dir(), self.property, target, std::process::id()));
         let _ = std::fs::remove_dir_all(&base);
         let mut children = vec![];
         for w in 0..workers {
